@@ -33,16 +33,16 @@ pub fn c18_extra(chk: &Check, _tier: Tier, heavy: &std::sync::atomic::AtomicU64)
     let lim = Limits { restoration_check: false, ..Default::default() };
     let v3 = [0u8, 1, 127];
     scan::API_ALLOCS.store(0, Ordering::Relaxed);
-    let sys = cc14::c08_system("C18", 2, scan::Report::default(), &v3);
+    let sys = cc14::c08_system("C18", 2, scan::Report { alloc: true, ..Default::default() }, &v3);
     let out = xs::explore(&sys, &lim);
     engine::record(chk, &sys, &out, None);
     heavy.fetch_add(out.transitions + out.probes, Ordering::Relaxed);
-    let sys = nrpn::c11_system("C18", 2, scan::Report::default(), &v3, true);
+    let sys = nrpn::c11_system("C18", 2, scan::Report { alloc: true, ..Default::default() }, &v3, true);
     let out = xs::explore(&sys, &lim);
     engine::record(chk, &sys, &out, None);
     heavy.fetch_add(out.transitions + out.probes, Ordering::Relaxed);
     for t in [0u64, 2] {
-        let sys = polling::PollSys::new("C18", 2, t, 1, &v3, false, polling::PReport::default());
+        let sys = polling::PollSys::new("C18", 2, t, 1, &v3, false, polling::PReport { alloc: true, ..Default::default() });
         let out = xs::explore(&sys, &lim);
         engine::record(chk, &sys, &out, None);
         heavy.fetch_add(out.transitions + out.probes, Ordering::Relaxed);
